@@ -114,7 +114,7 @@ def one_upgrad(ctx: Ctx):
 def main(ctx: Ctx):
     ctx.lean_gate()
     cat = [s for s in catalogue() if s.name in LINEAR]
-    n = 40 if ctx.tier == "quick" else 1500
+    n = 40 if ctx.tier == "quick" else 12000
     for i in range(n):
         for spec in cat:
             one_linear(ctx, spec, torch.float64 if i % 3 else torch.float32)
